@@ -36,4 +36,21 @@ PROPS = {
             "feature `coop` on (the default used by the runtime); the non-coop build is not exercised",
         ],
     ),
+    "C20": dict(
+        coq_targets=["Props/C20.vo"],
+        harness=[dict(pkg="h_prims", bin="c20", cases={"quick": 1500, "thorough": 25000},
+                      checkers=["corr", "oracle"])],
+        allowed_axioms=[],
+        trusted_base=[
+            "HashMap/HashSet as association lists / sorted sets (iteration order canonicalised on both sides)",
+            "a lane's reporter cell is modelled inside the lane's entry (Arc sharing with readers = access paths)",
+            "hook: swimos_runtime feature `verif` re-exports agent::task::links::{Links, TriggerUnlink}",
+        ],
+        assumptions=[
+            "lane ids are fresh at registration (register_lane is the only caller of register_reporter); a reporter attached to a lane that already has links is outside the theorem (ok_op)",
+            "reporters exist for all lanes iff the aggregate reporter exists (as the runtime configures them)",
+            "u64 overflow of the link total (2^64 links) is not modelled; counter saturation is, and excluded by hypothesis in C20_counters_lose_nothing",
+            "forward/backwards index agreement is checked by correspondence + oracle only (not yet a theorem)",
+        ],
+    ),
 }
